@@ -9,7 +9,7 @@ import faults
 PROPS = {
     'C19': dict(
         modules=['NitroVerif.Props.C19'],
-        runs=[('codec', gens.gen_codec, 300, 20000)],
+        runs=[('codec', gens.gen_codec, 300, 20000), ('codec', gens.gen_codec_parallel, 6, 60)],
         level='proof',
         level_text='C19_file_roundtrip, C19_v0_roundtrip, C19_kv_roundtrip, C19_compareKV and the guard lemmas are proved in Lean for all item lists, all byte contents, any hash; the model is tied to item.go/file.go by regenerated widths/endianness/tests and by a differential run of the real writer/reader',
         trusted=['Lean 4 kernel', 'tools/gofacts translation of item.go/file.go widths and tests',
@@ -109,7 +109,8 @@ PROPS = {
     ),
     'C05': dict(
         modules=['NitroVerif.Props.C05', 'NitroVerif.Props.C05e2e', 'NitroVerif.Props.C10', 'NitroVerif.Props.C18'],
-        runs=[('mvcc', gens.gen_backup, 120, 6000), ('mvcc', gens.gen_mvcc_visit, 100, 5000), ('mvcc', gens.gen_backup_stress, 12, 400)],
+        runs=[('mvcc', gens.gen_backup, 120, 6000), ('mvcc', gens.gen_mvcc_visit, 100, 5000), ('mvcc', gens.gen_backup_stress, 12, 400),
+              ('codec', gens.gen_codec_parallel, 4, 40)],
         keep_prefix=1,
         level='proof',
         level_text='C05_end_to_end (what the Visitor of the MVCC model hands to the shard writers, framed and described by the manifests, loads back as exactly the snapshot content, for every pivot list), C05_roundtrip (any partition of the content into shard files), C05_roundtrip_delta_general and C05_delta_any_interleaving are proved on the backup model over an abstract file system (framing from C19, assembly in file order); that the Visitor produces a partition is C10, that the assembled list is well formed is C18. Differential: random histories, store of any open snapshot with mutation and collection during the backup (delta on/off), restore into a fresh instance, scan, continue the history',
@@ -130,7 +131,8 @@ PROPS = {
     ),
     'C14': dict(
         modules=['NitroVerif.Props.C14', 'NitroVerif.Props.C14c'],
-        runs=[('skipseq', gens.gen_skipseq, 300, 20000), ('skipseq', gens.gen_builder, 150, 8000)],
+        runs=[('skipseq', gens.gen_skipseq, 300, 20000), ('skipseq', gens.gen_builder, 150, 8000),
+              ('mvcc', gens.gen_backup, 40, 2000), ('mvcc', gens.gen_mvcc_mm, 40, 4000)],
         iruns=[('skipconc', gens.gen_skipconc, 150, 5000)],
         level='proof',
         level_text='C14_wf_sequential and C14_wf_assemble (full well-formedness of all levels and statistics after every sequential history and after Assemble of any segments) proved on the pointer-level heap; C14_level0_chain_partial (level-0 chain sorted, reaches tail, contains every unmarked node) for every reachable state of the concurrent model. PARTIAL: upper levels and statistics after concurrent histories are checked by the walk after every steered run (no marked node reachable, sub-sequence property, counters), not proved; C14_upper_level_unfixed_witness is the kernel-checked witness of the defect fixed in Insert4',
@@ -212,10 +214,10 @@ NOT_YET = {}
 # second tie: the control shapes (Gen/Shapes.lean, regenerated on every run) of the functions the models of a property
 # mirror are pinned by the lemmas of these areas (Lemmas/Shape<Area>.lean)
 SHAPES = {
-    'C01': ['Mvcc'], 'C02': ['Mvcc'], 'C03': ['Mvcc', 'SkipConc'], 'C04': ['Mvcc', 'SkipConc', 'Barrier'],
+    'C01': ['Mvcc', 'SkipConc'], 'C02': ['Mvcc'], 'C03': ['Mvcc', 'SkipConc'], 'C04': ['Mvcc', 'SkipConc', 'Barrier'],
     'C05': ['Backup', 'Codec', 'Visitor', 'SkipSeq', 'Mvcc'], 'C06': ['Mvcc'], 'C07': ['Mvcc', 'Barrier', 'Backup', 'SkipSeq'],
-    'C08': ['Mvcc'], 'C09': ['Mvcc'], 'C10': ['Visitor', 'Mvcc'], 'C11': ['Backup', 'Codec'], 'C12': ['Backup', 'Codec'],
-    'C13': ['SkipConc'], 'C14': ['SkipConc', 'SkipSeq'], 'C15': ['SkipConc'], 'C16': ['Barrier'], 'C17': ['Barrier'],
+    'C08': ['Mvcc'], 'C09': ['Mvcc', 'SkipConc'], 'C10': ['Visitor', 'Mvcc', 'SkipConc'], 'C11': ['Backup', 'Codec'], 'C12': ['Backup', 'Codec'],
+    'C13': ['SkipConc'], 'C14': ['SkipConc', 'SkipSeq', 'Backup'], 'C15': ['SkipConc'], 'C16': ['Barrier'], 'C17': ['Barrier'],
     'C18': ['SkipSeq'], 'C19': ['Codec'], 'C20': ['Table'],
 }
 
